@@ -60,7 +60,7 @@ def gen_cases(rng, tier, scale):
         kind = rng.choice(list(FAIL))
         tag, reason = FAIL[kind]
         nl = rng.choice(['\n', '\n', '\r\n'])
-        where = rng.choice(['top', 'if', 'else', 'each', 'with', 'chain', 'inline', 'pblock', 'part', 'nested'])
+        where = rng.choice(['top', 'if', 'else', 'each', 'with', 'chain', 'inline', 'pblock', 'part', 'nested', 'capture'])
         MARK = '\x00'
         pre_lines = ''.join(rng.choice(TEXTS) + ('{{v}}' if rng.random() < 0.3 else '') + nl for _ in range(rng.randint(0, 3)))
         ind = rng.choice(['', ' ', '  é'])
@@ -86,6 +86,9 @@ def gen_cases(rng, tier, scale):
                 continue
             main = pre_lines + 'q' + MARK + '{{#if f}}A{{else if ' + cond + '}}B{{/if}}'
             tag = ''
+        elif where == 'capture':
+            # the body of a user block helper that captures it with Renderable::renders (probe local helper, tag c:)
+            main = pre_lines + '{{*sethelper "cap" "c:"}}{{#cap}}' + nl + 'x' + body + nl + '{{/cap}}'
         elif where == 'inline':
             main = pre_lines + '{{#*inline "il"}}' + nl + 'x' + body + nl + '{{/inline}}' + nl + '{{> il}}'
         elif where == 'pblock':
